@@ -21,19 +21,25 @@ DEFAULT_NOTE = ('trusted: Coq kernel; axiom functional_extensionality_dep only; 
 NOT_CLAIMED = {}
 
 PROPS = {
-    'C03': dict(level='proof', A=['profile'], B=['profile'], proj='barrier', B4='barrier'),
-    'C04': dict(level='proof', A=['profile'], B=['profile'], proj='result'),
+    'C03': dict(level='proof', A=['profile', 'ops'], B=['profile'], proj='barrier', B4='barrier'),
+    'C04': dict(level='proof', A=['profile'], B=['profile', 'profile_async', 'caps'], proj='result'),
     'C05': dict(level='proof', A=['profile'], B=['fail'], proj='result', B4='try_abort', B4_kinds=[(True, False), (True, True)], B4_n=24),
     'C06': dict(level='proof', A=['profile'], B=['fail'], proj='abort', B4='try_abort', B4_kinds=[(True, False), (True, True)], B4_n=24),
     'C07': dict(level='proof', A=['profile_spawn'], B=['pairs'], proj='result', pairs=True, macro_table=True),
     'C08': dict(level='proof', A=['profile_spawn'], B=['alive'], proj='exact'),
-    'C09': dict(level='proof', A=['profile_async'], B=[], proj=None, B4='lazy_complete', B4_n=60),
-    'C10': dict(level='proof', A=['profile'], B=['profile', 'wrap'], proj='multiset'),
-    'C11': dict(level='proof', A=['profile'], B=['caps', 'wrap'], proj='caps'),
-    'C12': dict(level='proof', A=['profile'], B=['caps'], proj='caps'),
-    'C13': dict(level='proof', A=['profile'], B=['profile', 'fail'], proj='exact'),
+    'C09': dict(level='proof', A=['profile_async'], B=['profile_async'], proj='exact', lazy_is_property=True, B4='lazy_complete', B4_n=60),
+    'C01': dict(level='proof', A=['ops', 'profile'], B=['profile', 'wrap', 'profile_async'], proj='exact', P='split', compile_is_property=True, macro_table=True),
+    'C02': dict(level='proof', A=['ops'], B=['wrap'], proj='exact', P='split'),
+    'C10': dict(level='proof', A=['profile', 'ops'], B=['profile', 'wrap', 'profile_async'], proj='multiset'),
+    'C11': dict(level='proof', A=['profile', 'ops'], B=['caps', 'wrap', 'profile_async'], proj='caps', B_args={'profile_async': {'cap_rate': 0.5}}),
+    'C12': dict(level='proof', A=['profile'], B=['caps', 'profile_async'], proj='caps', B_args={'profile_async': {'cap_rate': 0.5, 'lets_rate': 0.6}}),
+    'C16': dict(level='proof', A=['profile', 'opts'], B=[], proj=None, P='split'),
+    'C13': dict(level='proof', A=['profile', 'handler'], B=['profile', 'fail', 'profile_async'], proj='exact', P='split', handler_oracle=True),
     'C18': dict(level='proof', A=['profile_spawn'], B=['panic'], proj='abort'),
     'C14': dict(level='proof', A=[], B=[], proj=None, P='split'),
     'C15': dict(level='proof', A=['profile'], B=[], proj=None, P='total'),
+    'C19': dict(level='proof', A=['profile', 'ops'], B=[], proj=None, nocost=True),
+    'C20': dict(level='other', A=[], B=[], proj=None, history=True,
+                explanation='the theorem (the model of the expansion is a function of the token trees) is nearly trivial; the assurance is that of correspondence A over histories: every expansion in repeated, permuted and 8-thread concurrent histories equals the single model value'),
     'C17': dict(level='proof', A=['profile', 'bigindex'], B=[], proj=None),
 }
